@@ -70,7 +70,12 @@ def date(
     if isinstance(dat, str) and dat in ("now", "today"):
         # The current time must not be served from the cache.
         dat = datetime.datetime.now()
-    return _date(dat, fmt, environment=environment)
+    if isinstance(dat, (datetime.datetime, datetime.date)):
+        # Nothing to parse. And equal datetimes can be in different time zones,
+        # they must not share a cache entry.
+        return _date.__wrapped__(dat, fmt, environment=environment)
+    # A string like "10:30" or "March 3" is completed from the current date.
+    return _date(dat, fmt, environment=environment, today=datetime.date.today())
 
 
 @functools.lru_cache(maxsize=10, typed=True)
@@ -79,6 +84,7 @@ def _date(  # noqa: PLR0912 PLR0911
     fmt: str,
     *,
     environment: Environment,
+    today: datetime.date | None = None,  # noqa: ARG001  (part of the cache key)
 ) -> str:
     if is_undefined(dat):
         return ""
